@@ -21,7 +21,7 @@ CLASSES = ('response-missing', 'response-extra', 'response-unexpected', 'respons
 PROFILE = {'invalid_rate': 0.15, 'opaque_rate': 0.1, 'unknown_unit_rate': 0.2, 'multi_rate': 0.45,
            'broadcast_rate': 0.25, 'max_conns': 3, 'max_reqs': 8, 'pipeline_rate': 0.25, 'cut_rate': 0.2,
            'listen_only': True, 'custom_rate': 0.1, 'peer_close_rate': 0.15,
-           'dgram_dup_rate': 0.08}
+           'dgram_dup_rate': 0.08, 'socket_timeout_rate': 0.3}
 
 
 def generate(rng, tier, index):
